@@ -17,6 +17,7 @@ from .common import Harness, zbool, instrumented
 from . import c07
 
 PROPERTY = 'C16'
+LEVEL = 'exploration'      # the solver enumerates a schedule / skeleton; the data of a path are concrete (DESIGN.md section 4)
 BOUNDS = {'quick': '2 top-level items x %d shapes (+2 decorator shapes), styles auto / google / freeform' % c07.NSHAPES, 'thorough': '3 items'}
 OUTSIDE = 'modules whose callables are not defined by ordinary def/class statements in that module (the statement excludes them); compiled extension modules; import side effects'
 ASSUMPTIONS = ['shapes the statement excludes are not generated: property setters/deleters with their own doctests, callables bound by assignment']
